@@ -2,8 +2,9 @@
 # usage: bin/seedtest.sh <Cxx> [check ids...]  : confirm a seeded change (from /tmp/seed_<Cxx> or /verif/seeded/<Cxx>) and run checks on it
 # Confirms in a scratch worktree: patch applies, builds, demo fails with it and passes without, suite passes with it.
 set -u
-id=$1; shift; checks="${@:-$id}"
-src=/tmp/seed_$id; dst=/verif/seeded/$id
+id=$1; shift; prop=${id%%-*}; checks="${@:-$prop}"
+src=/tmp/seed_$id; case "$id" in *-2) src=/tmp/seed2_$prop;; esac
+dst=/verif/seeded/$id
 mkdir -p $dst
 if [ -f $src/patch.diff ]; then cp $src/patch.diff $src/zz_seed_demo_test.go $dst/ 2>/dev/null; cp $src/meta.json $dst/meta_agent.json 2>/dev/null; fi
 wt=/tmp/seedchk_$id; rm -rf $wt; git -C /repo worktree prune; git -C /repo worktree add -q --detach $wt HEAD || exit 1
